@@ -106,8 +106,239 @@ def functions(path):
         yield name, "\n".join(reversed(attrs)), sig, body
 
 
+# ---------------------------------------------------------------------------------------------
+# which ARGUMENT does the uniqueness test / the im-lists call reach?
+# The variable handed to Gc::get_mut / Gc::make_mut / cons_mut / rest_mut / append_mut / push_back / reverse is traced
+# back through the pattern that binds it (if-let, let-else, match arm; tuples position by position; one `let x = e;` hop)
+# to a parameter of the function (`p`, `&mut p`, mem::take(p), mem::replace(p, ..)) or to an element of the argument
+# slice (`args[i]`, `&mut args[i]`, args.split_first_mut() -> 0).  A site that cannot be traced is an error: the
+# sources no longer look as expected.
+# ---------------------------------------------------------------------------------------------
+def split_top(s):
+    """split at commas of depth 0"""
+    out, cur, depth = [], "", 0
+    for ch in s:
+        if ch in "([{":
+            depth += 1
+        elif ch in ")]}":
+            depth -= 1
+        if ch == "," and depth == 0:
+            out.append(cur)
+            cur = ""
+        else:
+            cur += ch
+    if cur.strip():
+        out.append(cur)
+    return [x.strip() for x in out]
+
+
+def strip_parens(s):
+    s = s.strip()
+    while s.startswith("(") and s.endswith(")"):
+        depth = 0
+        for i, ch in enumerate(s):
+            depth += {"(": 1, ")": -1}.get(ch, 0)
+            if depth == 0 and i < len(s) - 1:
+                return s
+        s = s[1:-1].strip()
+    return s
+
+
+def params_of(sig):
+    start = re.search(r"\bfn\s+\w+\s*(?:<[^>{]*>)?\s*\(", sig).end()
+    inner = sig[start:sig.rindex(")")]
+    res = []
+    for part in split_top(inner):
+        if ":" not in part:
+            continue
+        name, ty = part.split(":", 1)
+        res.append((name.replace("mut ", "").strip(), ty.strip()))
+    return res
+
+
+def pattern_start(body, pos):
+    """start of the pattern that contains position `pos`: after the nearest `if let` / `let` / `{` / `=>` / `,` of depth 0
+    going backwards"""
+    depth = 0
+    i = pos
+    while i > 0:
+        ch = body[i]
+        if ch in ")]":
+            depth += 1
+        elif ch in "([":
+            if depth == 0:
+                # an opening bracket we are inside of: keep going (it belongs to the pattern)
+                pass
+            else:
+                depth -= 1
+        elif depth == 0 and ch in "{;":
+            return i + 1
+        elif depth == 0 and body[i - 1:i + 1] == "=>":
+            return i + 1
+        if body[max(0, i - 3):i + 1] == "let " and depth == 0:
+            return i + 1
+        i -= 1
+    return 0
+
+
+def enclosing_match(body, pos):
+    """scrutinee of the `match E {` whose arms contain position `pos`"""
+    depth = 0
+    i = pos
+    while i > 0:
+        ch = body[i]
+        if ch == "}":
+            depth += 1
+        elif ch == "{":
+            if depth == 0:
+                head = body[:i]
+                m = list(re.finditer(r"\bmatch\b", head))
+                if m:
+                    cand = head[m[-1].end():].strip()
+                    # the text between `match` and `{` must be brace-free to be the scrutinee of THIS brace
+                    if "{" not in cand and "}" not in cand and "=>" not in cand:
+                        return cand
+                # not a match brace (a block, an if-let body): continue outwards
+            else:
+                depth -= 1
+        i -= 1
+    return None
+
+
+def bound_from(body, var, use_pos, hops=0):
+    """expression(s) the variable `var` (used at `use_pos`) is bound from: list of candidate scrutinee components"""
+    if hops > 4:
+        return []
+    pre = body[:use_pos]
+    # 1. nearest preceding occurrence of `var` as a binder inside a pattern: `var)` / `var,` preceded by `(` `mut ` `ref mut `
+    best = None
+    for m in re.finditer(r"(?:\(|,\s*|ref\s+mut\s+|mut\s+)%s\s*(?=[),])" % re.escape(var), pre):
+        best = m
+    let = None
+    for m in re.finditer(r"\blet\s+(?:mut\s+)?%s\s*(?::[^=;]*)?=\s*" % re.escape(var), pre):
+        let = m
+    if let is not None and (best is None or let.start() > best.start()):
+        # `let var = EXPR;`  (EXPR may itself be an `if let PAT = E { x } else ..`)
+        j = let.end()
+        depth = 0
+        k = j
+        while k < len(body):
+            ch = body[k]
+            depth += {"(": 1, "{": 1, "[": 1, ")": -1, "}": -1, "]": -1}.get(ch, 0)
+            if ch == ";" and depth == 0:
+                break
+            k += 1
+        expr = body[j:k]
+        m2 = re.match(r"\s*if\s+let\s+(.*?)\s=\s(.*?)\s*\{\s*(\w+)\s*\}", expr, re.S)
+        if m2:
+            return component(body, j + m2.start(1), m2.group(1), m2.group(2), m2.group(3), hops)
+        return [expr.strip()]
+    if best is None:
+        return []
+    vpos = best.end() - 1
+    ps = pattern_start(body, best.start())
+    # end of the pattern: `=>` (match arm) or ` = ` (if let / let else)
+    rest = body[ps:]
+    depth = 0
+    end = None
+    kind = None
+    for k, ch in enumerate(rest):
+        depth += {"(": 1, "[": 1, ")": -1, "]": -1}.get(ch, 0)
+        if depth == 0 and rest[k:k + 2] == "=>":
+            end, kind = k, "arm"
+            break
+        if depth == 0 and ch == "=" and rest[k:k + 2] != "==" and k > 0 and rest[k - 1] not in "!<>=":
+            end, kind = k, "let"
+            break
+    if end is None:
+        return []
+    pat = rest[:end].strip()
+    if pat.startswith("if let"):
+        pat = pat[6:].strip()
+    if kind == "let":
+        after = rest[end + 1:]
+        m3 = re.match(r"\s*(.*?)\s*(?:\{|else\b|;)", after, re.S)
+        scrut = m3.group(1) if m3 else ""
+    else:
+        scrut = enclosing_match(body, ps) or ""
+    return component(body, ps, pat, scrut, var, hops)
+
+
+def component(body, pos, pat, scrut, var, hops):
+    pat = pat.strip()
+    scrut = scrut.strip()
+    # Some((a, b)) = x.split_first_mut(): position inside the pair
+    m = re.match(r"Some\((.*)\)$", pat, re.S)
+    if m and "split_first_mut" in scrut:
+        parts = split_top(strip_parens(m.group(1)))
+        for i, part in enumerate(parts):
+            if re.search(r"\b%s\b" % re.escape(var), part):
+                return ["#first" if i == 0 else "#rest"]
+    pp = strip_parens(pat)
+    sp = strip_parens(scrut)
+    pparts = split_top(pp) if pp != pat or pat.startswith("(") else [pat]
+    sparts = split_top(sp) if sp != scrut or scrut.startswith("(") else [scrut]
+    if len(pparts) > 1 and len(pparts) == len(sparts):
+        for part, s in zip(pparts, sparts):
+            if re.search(r"\b%s\b" % re.escape(var), part):
+                return resolve_expr(body, pos, s, hops)
+        return []
+    return resolve_expr(body, pos, scrut, hops)
+
+
+def resolve_expr(body, pos, expr, hops):
+    expr = expr.strip()
+    m = re.fullmatch(r"(?:&mut\s+)?(\w+)", expr)
+    if m:
+        # a plain identifier: a parameter, or a local bound earlier
+        return [expr] + bound_from(body, m.group(1), pos, hops + 1)
+    return [expr]
+
+
+def arg_index(exprs, params):
+    """map candidate expressions to an argument position"""
+    names = [n for n, _ in params]
+    slice_param = next((n for n, ty in params if re.match(r"&mut\s*\[SteelVal\]", ty)), None)
+    for e in exprs:
+        if e == "#first":
+            return 0
+        m = re.search(r"(?:&mut\s+)?(\w+)\[(\d+)\]", e)
+        if m and m.group(1) == slice_param:
+            return int(m.group(2))
+        if slice_param and "split_first_mut" in e:
+            return 0
+        for i, n in enumerate(names):
+            if re.fullmatch(r"(?:&mut\s+)?%s" % re.escape(n), e) or \
+               re.search(r"mem::(?:take|replace)\(\s*%s\b" % re.escape(n), e):
+                return i
+    return None
+
+
+SITES = [(r"Gc::get_mut\(\s*(\w+)\s*\)", "test"), (r"Gc::make_mut\(\s*&mut\s+(\w+)", "test"),
+         (r"\b(\w+)\.(?:cons_mut|rest_mut|append_mut|push_back)\(", "lib"), (r"\b(\w+)\.reverse\(\)", "lib")]
+
+
+def in_place_args(sig, body, cls):
+    params = params_of(sig)
+    want = "test" if cls == "fastPath" else "lib"
+    found, failed = [], []
+    for pat, kind in SITES:
+        if kind != want:
+            continue
+        for m in re.finditer(pat, body):
+            var = m.group(1)
+            exprs = bound_from(body, var, m.start())
+            idx = arg_index(exprs, params)
+            if idx is None:
+                failed.append((var, m.group(0), exprs[:3]))
+            elif idx not in found:
+                found.append(idx)
+    return sorted(found), failed
+
+
 def main():
     prims = []
+    untraced = []
     all_src = {}
     for rel in FILES:
         path = os.path.join(CORE, rel)
@@ -149,10 +380,17 @@ def main():
             if steel and not registered:
                 # the attribute macro derives the constant from the function name
                 registered = bool(re.search(r"\b%s\b" % re.escape(const), reg_src.replace("pub const", "")))
+            cls = CLASSES.get(name, "unclassified")
+            ipa, ipa_failed = in_place_args(sig, body, cls) if cls in ("fastPath", "libPath") else ([], [])
+            if cls in ("fastPath", "libPath") and (ipa_failed or not ipa):
+                untraced.append((name, ipa_failed))
             prims.append({"rust": name, "steel": steel, "file": rel, "tests": tests, "lib": lib, "steals": steals,
+                          "inPlaceArgs": ipa,
                           "mutParam": mut_param, "mutableArm": "MutableVector" in body, "registered": registered,
                           "todo": "todo!()" in body,
                           "cls": CLASSES.get(name, "unclassified")})
+    if untraced:
+        sys.exit("c03_inplace: cannot trace the uniqueness test / im-lists call to an argument in: %s" % untraced)
     if len(prims) < 10:
         sys.exit("c03_inplace: only %d functions extracted: the sources no longer look as expected" % len(prims))
 
@@ -205,6 +443,7 @@ def main():
     def lstr(xs):
         return "[" + ", ".join('"%s"' % x for x in xs) + "]"
     lines = ["/- GENERATED by translate/c03_inplace.py from /repo on every run — do not edit. -/",
+             "import SteelVerif.C03.PrimTable",
              "namespace SteelVerif.C03.GenInPlace", "",
              "inductive Class where", "  | fastPath | libPath | steals | mutableByDesign | shareOnly | unclassified",
              "deriving DecidableEq, Repr", "",
@@ -212,12 +451,14 @@ def main():
              "  tests : List String      -- uniqueness tests in the body: getMut / makeMut / tryUnwrap / strongCount",
              "  lib : List String        -- im-lists operations given the argument slot",
              "  steals : Bool            -- mem::take / mem::replace / mem::swap on arguments",
+             "  inPlaceArgs : List Nat   -- argument positions whose slot reaches the uniqueness test / the im-lists call",
              "  registered : Bool        -- reachable from Steel",
              "  cls : Class", "  exercisedBy : List String -- operations of gen/alias03.py (or \"corpus\") that call it",
              "deriving Repr", "", "def prims : List Prim := ["]
     for i, p in enumerate(prims):
-        lines.append('  ⟨"%s", "%s", "%s", %s, %s, %s, %s, .%s, %s⟩%s' % (
+        lines.append('  ⟨"%s", "%s", "%s", %s, %s, %s, %s, %s, .%s, %s⟩%s' % (
             p["rust"], p["steel"], p["file"], lstr(p["tests"]), lstr(p["lib"]), str(p["steals"]).lower(),
+            "[" + ", ".join(str(x) for x in p["inPlaceArgs"]) + "]",
             str(p["registered"]).lower(), p["cls"], lstr(p["exercisedBy"]), "," if i + 1 < len(prims) else ""))
     lines += ["]", "",
               "/-- what `Gc::get_mut` / `make_mut` / `try_unwrap` / `strong_count` call on `Shared` (gc.rs) -/",
@@ -252,6 +493,29 @@ def main():
               '    ∧ sharedType = "steel_rc::BiasedRc" ∧ harnessFeatures.contains "biased" = true ∧ harnessFeatures.contains "sync" = true',
               '    ∧ rcTests = [("get_mut", "has_unique_ref"), ("make_mut", "has_unique_ref")] ∧ rcHasWeak = false',
               '    ∧ listFamily = [("get_mut", "Gc::get_mut"), ("make_mut", "Gc::make_mut"), ("strong_count", "Gc::strong_count"), ("try_unwrap", "Gc::try_unwrap")] := by',
+              "  decide",
+              "",
+              "/-- the in-place argument of the source, per Steel name (registered fast paths and list primitives) -/",
+              "def sourceArgs (steel : String) : List Nat :=",
+              "  (prims.filter (fun p => p.steel == steel && p.registered && (decide (p.cls = .fastPath) || decide (p.cls = .libPath)))).flatMap (·.inPlaceArgs)",
+              "",
+              "/-- in-place arms of the source that the model does not have (`#%struct-update` has no operation in the model's",
+              "table, a directed corpus case calls it) -/",
+              'def unmodelledArms : List (String × Nat) := [("#%struct-update", 0)]',
+              "",
+              "/-- THE MODEL'S PRIMITIVE TABLE MATCHES THE SOURCE: (1) every operation of `PrimTable` that may update an argument",
+              "in place (`PrimOp.inPlaceArg`, the only target `plan` ever gives to `Plan.upd`: `plan_upd_target`) names a Steel",
+              "primitive of /repo whose uniqueness test (resp. im-lists call) is reached from exactly that argument's stack slot;",
+              "(2) conversely every (primitive, argument) pair of the source is the in-place argument (or the alternative arm,",
+              "`PrimOp.altArm`: the right operand of `hash-union`) of some operation of the model, or is listed in `unmodelledArms`; (3) an operation the model never updates in place names no in-place",
+              "primitive of the source. -/",
+              "theorem stolen_args_match_model :",
+              "    PrimOp.all.all (fun p => match p.inPlaceArg with",
+              "      | some j => p.steel != \"\" && (sourceArgs p.steel).contains j",
+              "      | none => p.steel == \"\") = true",
+              "    ∧ prims.all (fun q => !(q.registered && (decide (q.cls = .fastPath) || decide (q.cls = .libPath)) && q.steel != \"\")",
+              "        || q.inPlaceArgs.all (fun j => unmodelledArms.contains (q.steel, j)",
+              "             || PrimOp.all.any (fun p => p.steel == q.steel && (p.inPlaceArg == some j || p.altArm == some j)))) = true := by",
               "  decide",
               "", "end SteelVerif.C03.GenInPlace", ""]
     new = "\n".join(lines)
